@@ -237,13 +237,21 @@ class UnitEntry(HedSchemaEntry):
                 derivative_units[modifier.name + derived_unit] = self._get_conversion_factor(modifier_entry=modifier)
         self.derivative_units = derivative_units
 
+    @staticmethod
+    def _factor_to_float(factor_text):
+        """ Convert a conversion factor such as 0.001, 1e-3 or 10^-3 (ten to the power -3) to a float. """
+        base, caret, exponent = factor_text.partition("^")
+        if caret:
+            return float(base) ** float(exponent)
+        return float(factor_text)
+
     def _get_conversion_factor(self, modifier_entry):
         base_factor = modifier_factor = 1.0
         try:
-            base_factor = float(self.attributes.get(HedKey.ConversionFactor, "1.0").replace("^", "e"))
+            base_factor = self._factor_to_float(self.attributes.get(HedKey.ConversionFactor, "1.0"))
             if modifier_entry:
-                modifier_factor = float(modifier_entry.attributes.get(HedKey.ConversionFactor, "1.0").replace("^", "e"))
-        except (ValueError, AttributeError):
+                modifier_factor = self._factor_to_float(modifier_entry.attributes.get(HedKey.ConversionFactor, "1.0"))
+        except (ValueError, AttributeError, ArithmeticError):
             pass  # Just default to 1.0
         return base_factor * modifier_factor
 
